@@ -561,7 +561,31 @@ def check_proto(p):
             # deserialised graph can only list values of its own scope as outputs
             from mc.snapshot import Registry, closure
 
+            own_graphs = set()
+
+            def down(g):
+                if id(g) in own_graphs:
+                    return
+                own_graphs.add(id(g))
+                for nd in g:
+                    for a in nd.attributes.values():
+                        if isinstance(a, ir.Attr) and not a.is_ref():
+                            if a.type == ir.AttributeType.GRAPH and a.value is not None:
+                                down(a.value)
+                            elif a.type == ir.AttributeType.GRAPHS:
+                                for sg in a.value:
+                                    down(sg)
+
+            down(model.graph)
+            for f in model.functions.values():
+                down(f.graph)
             for o in closure(roots, Registry()):
+                # the IR is closed: a value used inside the model is produced inside the model or by nothing
+                if isinstance(o, ir.Node) and id(o.graph) in own_graphs:
+                    for v_in in o.inputs:
+                        if v_in is not None and v_in.producer() is not None and id(v_in.producer().graph) not in own_graphs:
+                            v.append(("input_produced_by_a_node_outside_the_model", f"{o.name!r} uses {v_in.name!r} produced by {v_in.producer().name!r} (graph {getattr(v_in.producer().graph, 'name', None)!r})"))
+                            break
                 if isinstance(o, ir.Value) and o.producer() is not None and o.producer().graph is not None and o.graph is not o.producer().graph:
                     v.append(("value_owned_by_a_graph_other_than_its_producers", f"{o.name!r}: graph={getattr(o.graph, 'name', None)!r} producer.graph={o.producer().graph.name!r}"))
                     break
@@ -618,9 +642,23 @@ def _work(task):
     outcomes = {}
     found = {}
 
+    history = []
+
+    def fingerprint(m):
+        try:
+            mod = ir.from_proto(m)
+        except Exception as e:  # noqa: BLE001
+            return ("raised", type(e).__name__)
+        try:
+            return ("ir", ir.to_proto(mod).SerializeToString(deterministic=True))
+        except Exception as e:  # noqa: BLE001
+            return ("ir_unserialisable", type(e).__name__)
+
     def run(desc, cls, m):
         nonlocal n
         n += 1
+        if mode == "single":
+            history.append((desc, cls, m, fingerprint(m)))
         out, v = check_proto(m)
         outcomes[out] = outcomes.get(out, 0) + 1
         for clause, detail in v:
@@ -639,6 +677,15 @@ def _work(task):
             run([list(map(str, site[0])), site[1], site[2]], _site_class(site), m)
         for lab, m in special_mutants(seed):
             run(lab, lab.rstrip("0123456789_"), m)
+        # history independence: the same protos deserialised again in the opposite order (so each one now follows
+        # different, possibly rejected, predecessors) must give the same outcome and the same serialised result
+        for desc, cls, m, fp in reversed(history):
+            fp2 = fingerprint(m)
+            if fp2 != fp:
+                key = f"result_depends_on_earlier_deserializations|{cls}"
+                if key not in found:
+                    found[key] = {"seed": label, "mutation": desc, "clause": "result_depends_on_earlier_deserializations",
+                                  "detail": (fp[0], fp2[0]), "proto_hex": m.SerializeToString().hex()}
     elif mode == "pairs":
         # every pair of mutation sites inside the first two nodes and the first initializer
         ss = [s for s in sites(seed) if s[0][:2] in (("graph", "node"), ("graph", "initializer"), ("graph", "input"), ("graph", "output")) and (len(s[0]) < 3 or s[0][2] in (0, 1))]
